@@ -100,6 +100,7 @@ def pValueArg : P Bytes := do
     match (t.drop 2).toString.toInt? with
     | some n => pure (Conv.toBytes (.int n))
     | none => throw s!"bad int literal {t}"
+  else if t == "n:" then pure (Conv.toBytes (.bytes []))      -- a nil `[]byte` is the empty byte string
   else if t == "t:1" then pure (Conv.toBytes (.bool true))
   else if t == "t:0" then pure (Conv.toBytes (.bool false))
   else if t.startsWith "f:" then
